@@ -25,6 +25,7 @@ model — contexts read from one FProtocol share that protocol's ephemeral map
 -/
 import FV.Model.ContextHeap
 import FV.Proofs.ContextHeap
+import FV.Generated.Locks
 
 namespace FV.C17
 open FV FV.CH
@@ -217,5 +218,14 @@ example : (run (State.init 0) [.new [99], .get 0 .req, .retSet 0 k1 v1, .retRead
 example : (run (State.init 0) [.new [99], .clone 0, .add 0 .req k1 v1, .read 0 (.header .req k1),
     .read 1 (.header .req k1)]).2.drop 3 = [.val (some v1), .val none] := by
   decide
+
+/-- **Lock discipline behind the model's atomic steps** (FContext), decided by the kernel on facts
+REGENERATED from lib/go's source on every check (harness/locks → FV/Generated/Locks.lean): no function
+calls, while it holds one of these mutexes, anything that (transitively) acquires the same mutex, no
+lexical re-lock, and every path out of a function releases what the function locked. This is what makes a
+critical section ONE step of the model and rules out the self-deadlocks (a second RLock behind a queued
+writer, SendError under SendReply's lock) and leaked locks that would wedge every later request. -/
+theorem c17_lock_discipline :
+    FV.Locks.ok [4] FV.Generated.Locks.mutexTags FV.Generated.Locks.facts = true := by decide +kernel
 
 end FV.C17
